@@ -37,6 +37,8 @@ struct V {
     id13: u32,
     base: u32, // 0: zeros, 1: all-ones FS/DR/UM (+ MB ones), 2: MB = BDS 2,0 skeleton
     update: bool,
+    /// how the row came to exist (update only): 0 = DF11 CA5, 1 = DF11 CA0, 2 = by the sentinel DF5 alone, 3 = by a DF20
+    pre: u32,
 }
 
 fn frame(v: &V, addr: u32) -> Frame {
@@ -59,7 +61,12 @@ fn frame(v: &V, addr: u32) -> Frame {
 fn lines(v: &V, addr: u32) -> Vec<Vec<u8>> {
     let mut l = vec![];
     if v.update {
-        l.push(hexline(&frames::df11(5, addr, 0)));
+        match v.pre {
+            0 => l.push(hexline(&frames::df11(5, addr, 0))),
+            1 => l.push(hexline(&frames::df11(0, addr, 0))),
+            3 => l.push(hexline(&frames::df20(addr, frames::ac13_for_alt(7000), 0))),
+            _ => {}
+        }
         l.push(hexline(&frames::df5(addr, frames::id13_for_squawk(SENTINEL_SQ))));
     }
     l.push(hexline(&frame(v, addr)));
@@ -69,9 +76,9 @@ fn lines(v: &V, addr: u32) -> Vec<Vec<u8>> {
 fn judge(ctx: &mut Ctx, cfg: &Cfg, v: &V, addr: u32, o: &Obs) {
     ctx.eval();
     let want = fields::squawk(v.id13);
-    let site = format!("C06/DF{}/{}", v.df, if v.update { "update" } else { "first" });
+    let site = format!("C06/DF{}/{}", v.df, if v.update { format!("update-pre{}", v.pre) } else { "first".to_string() });
     let key = format!("id13={:04X}/base{}/{}", v.id13, v.base, cfg.label());
-    let case = || json!({"kind": "id13", "df": v.df, "id13": v.id13, "base": v.base, "update": v.update, "cfg": cfg.opts, "addr": addr});
+    let case = || json!({"kind": "id13", "df": v.df, "id13": v.id13, "base": v.base, "update": v.update, "pre": v.pre, "cfg": cfg.opts, "addr": addr});
     match o {
         Obs::Row(s) => {
             if v.df == 21 && !v.update {
@@ -122,9 +129,12 @@ fn run(ctx: &mut Ctx) {
             if df == 5 && base == 2 {
                 continue;
             }
-            for update in [false, true] {
+            for (update, pre) in [(false, 0u32), (true, 0), (true, 1), (true, 2), (true, 3)] {
+                if pre > 0 && base > 0 {
+                    continue;
+                }
                 for id13 in 0..8192u32 {
-                    items.push(V { df, id13, base, update });
+                    items.push(V { df, id13, base, update, pre });
                 }
             }
         }
@@ -165,7 +175,7 @@ fn run(ctx: &mut Ctx) {
             }
         }
     }
-    ctx.sample(|| json!({"vector": "update", "lines": lines(&V{df:5,id13:0x0ABC,base:0,update:true}, BASE).iter().map(|l| String::from_utf8_lossy(l).into_owned()).collect::<Vec<_>>(), "expected_squawk": fields::squawk(0x0ABC)}));
+    ctx.sample(|| json!({"vector": "update", "lines": lines(&V{df:5,id13:0x0ABC,base:0,update:true,pre:0}, BASE).iter().map(|l| String::from_utf8_lossy(l).into_owned()).collect::<Vec<_>>(), "expected_squawk": fields::squawk(0x0ABC)}));
     ctx.bound("id13", "all 8192 values");
     ctx.out.exhaustive = true;
 }
@@ -177,7 +187,7 @@ fn replay(ctx: &mut Ctx, case: &Value) {
     let g = |k: &str| case.get(k).and_then(|x| x.as_u64()).unwrap_or(0) as u32;
     match case.get("kind").and_then(|x| x.as_str()) {
         Some("id13") => {
-            let v = V { df: g("df"), id13: g("id13"), base: g("base"), update: case.get("update").and_then(|x| x.as_bool()).unwrap_or(false) };
+            let v = V { df: g("df"), id13: g("id13"), base: g("base"), update: case.get("update").and_then(|x| x.as_bool()).unwrap_or(false), pre: g("pre") };
             let addr = case.get("addr").and_then(|x| x.as_u64()).map(|a| a as u32).unwrap_or(BASE);
             let ob = single(&cfg, addr, lines(&v, addr));
             crate::run::say(&format!("lines {:?} cfg [{}]: expected squawk {:04}, observed {:?}", lines(&v, addr).iter().map(|l| String::from_utf8_lossy(l).into_owned()).collect::<Vec<_>>(), cfg.label(), fields::squawk(v.id13), ob.row().map(|s| s.squawk)));
